@@ -1246,6 +1246,15 @@ func (r *runningStep) startStage(container deployer.Plugin) (bool, int64, error)
 		&enabledOutput,
 	)
 
+	// A stop condition or close request that arrived before the step started wins over the run
+	// input, even if both are available by now (select picks among ready cases at random).
+	select {
+	case <-r.ctx.Done():
+		r.logger.Debugf("step closed before it started")
+		return true, 0, nil
+	default:
+	}
+
 	// First, try to non-blocking retrieve the runInput.
 	// If not yet available, set to state waiting for input and do a blocking receive.
 	// If it is available, continue.
@@ -1266,6 +1275,12 @@ func (r *runningStep) startStage(container deployer.Plugin) (bool, int64, error)
 		case <-r.ctx.Done():
 			r.logger.Debugf("step closed while waiting for run configuration")
 			return true, 0, nil
+		}
+		select {
+		case <-r.ctx.Done():
+			r.logger.Debugf("step closed while waiting for run configuration")
+			return true, 0, nil
+		default:
 		}
 	}
 
